@@ -201,6 +201,13 @@ pub(super) fn verify_nsec3(
     // 4. Name is serviced by wildcard that doesn't have a record of this type
 
     match response_code {
+        // A name error for the query name cannot come with answer records: a wildcard expansion
+        // would need its own proof (RFC 5155 section 8.8), data at the name contradicts the
+        // claim, and for a CNAME chain the proof below is about the wrong name anyway.
+        ResponseCode::NXDomain if !answers.is_empty() => cx.proof(
+            Proof::Bogus,
+            "NXDomain response with records in the answer section",
+        ),
         // Case 1:
         ResponseCode::NXDomain => validate_nxdomain_response(&cx),
 
